@@ -48,6 +48,14 @@ add("Error:none", '#[derive(derive_more::Debug, derive_more::Display, derive_mor
 add("Error:enum", ERRBASE + '#[derive(derive_more::Debug, derive_more::Display, derive_more::Error)] #[display("t")] pub enum T { A, B { source: Inner }, '
     'C(#[error(not(source))] i32), #[error(ignore)] D(Inner), E(#[error(ignore)] u8, #[error(source)] Inner) }',
     [SRC.format(v="M::T::A"), SRC.format(v="M::T::B { source: M::Inner }"), SRC.format(v="M::T::C(1)"), SRC.format(v="M::T::D(M::Inner)"), SRC.format(v="M::T::E(1, M::Inner)")])
+add("Error:enum_all_sourced_but_ignored", ERRBASE + '#[derive(derive_more::Debug, derive_more::Display, derive_more::Error)] #[display("t")] pub enum T { '
+    'A { source: Inner }, B(Inner), #[error(ignore)] C(Inner), #[error(ignore)] D }',
+    [SRC.format(v="M::T::A { source: M::Inner }"), SRC.format(v="M::T::B(M::Inner)"), SRC.format(v="M::T::C(M::Inner)"), SRC.format(v="M::T::D")])
+add("Error:enum_all_ignored", ERRBASE + '#[derive(derive_more::Debug, derive_more::Display, derive_more::Error)] #[display("t")] pub enum T { '
+    '#[error(ignore)] A { source: Inner }, #[error(ignore)] B }',
+    [SRC.format(v="M::T::A { source: M::Inner }"), SRC.format(v="M::T::B")])
+add("Error:enum_single_sourced", ERRBASE + '#[derive(derive_more::Debug, derive_more::Display, derive_more::Error)] #[display("t")] pub enum T { A(Inner) }',
+    [SRC.format(v="M::T::A(M::Inner)")])
 add("Error:generic", ERRBASE + '#[derive(derive_more::Debug, derive_more::Display, derive_more::Error)] #[display("t")] pub struct T<X>(pub X);', [SRC.format(v="M::T(M::Inner)")])
 # ---------------------------------------------------------------- conversions
 add("From:struct", STD_DERIVES + " #[derive(derive_more::From)] pub struct T(pub i32, pub u8);", ['format!("{:?}", <M::T as ::core::convert::From<(i32, u8)>>::from((1, 2)))'])
